@@ -61,6 +61,20 @@ def make_rsa(rng, clsmap):
       arts[slot] = checks.Art(aid, 'rsa', art.rsa_key(src.meta['n']), 'sharedprime', **dict(src.meta))
     elif c in ('prime', 'even', 'square', 'pow2', 'oddlen', 'bits64', 'bits65', 'three', 'huge_e', 'empty_e'):
       arts[slot] = gen.rsa_degenerate(rng, aid, c)
+    elif c == 'pattern4096':
+      from pv import weak
+      k = None
+      # a 255-bit word on a 3072-bit modulus: factored through pattern size 255 only (255 > 1024 // 8, so a preceding
+      # 1024-bit key must not influence it)
+      for _ in range(3):
+        k = weak.pattern_key(rng, aid, 3072, 255, 16)
+        if k is not None:
+          break
+      if k is None:
+        k = gen.rsa_healthy(rng, aid, 3072)
+      k.meta.pop('attrs', None)
+      k.meta['crit'] = dict({x: 'may' for x in gen.RSA_CHECKS}, CheckSizes='mustnot', CheckExponents='mustnot')
+      arts[slot] = k
     elif c in ('tri', 'triP', 'triQ'):
       if tri is None:
         tri = [art.rand_prime_top2(rng, 700) for _ in range(3)] + [art.rand_prime_top2(rng, 1024), art.rand_prime_top2(rng, 1024)]
@@ -98,6 +112,11 @@ def make_ec(rng, clsmap):
       arts[slot] = gen.ec_key(rng, slot, 'secp192r1', cls='healthy')
     elif c == 'weakprivate':
       arts[slot] = gen.ec_weak_private(rng, slot, 'secp256r1')
+    elif c == 'weakprivatetop':
+      # a 32-bit private value at the far end of the searched range (last giant steps)
+      a = gen.ec_key(rng, slot, 'secp256r1', d=rng.randrange(2 ** 32 - 2 ** 20, 2 ** 32), cls='weakprivate')
+      a.meta['crit'] = dict(a.meta['crit'], CheckWeakECPrivateKey='must')
+      arts[slot] = a
     elif c in ('closeA', 'closeB'):
       if close_d is None:
         close_d = rng.randrange(2 ** 200, 2 ** 250)
@@ -127,6 +146,7 @@ def make_ec(rng, clsmap):
 def make_ecdsa(rng, clsmap):
   """Each slot is a GROUP of signatures of one issuer (a batch is the concatenation of the chosen groups)."""
   groups = {}
+  close192 = None
   nc = gen.named_curves()
   for slot in sorted(clsmap):
     c = clsmap[slot]
@@ -136,6 +156,15 @@ def make_ecdsa(rng, clsmap):
       groups[slot] = gen.healthy_sigs(rng, slot + '-', 'secp384r1', 3)
     elif c == 'healthy521':
       groups[slot] = gen.healthy_sigs(rng, slot + '-', 'secp521r1', 3)
+    elif c in ('close192A', 'close192B'):
+      if close192 is None:
+        close192 = rng.randrange(2 ** 150, 2 ** 180)
+      d = close192 if c == 'close192A' else close192 + 5
+      sigs = gen.healthy_sigs(rng, slot + '-', 'secp192r1', 2, d=d)
+      for sg in sigs:
+        sg.cls = 'close192'
+        sg.meta['crit'] = dict({x: 'may' for x in gen.ECDSA_CHECKS})
+      groups[slot] = sigs
     elif c == 'msbA':
       groups[slot] = gen.msb_biased_sigs(rng, slot + '-', 'secp256r1', 8, 64)
     elif c == 'msb384':
@@ -262,7 +291,35 @@ def crit_for(kind, batch, max_diff):
   if kind == 'ec':
     return gen.ec_joint_crit(batch, max_diff)
   # ecdsa: nonce checks judge (curve, issuer) groups; criterion per signature is fixed by its class
-  return {a.aid: dict(a.meta.get('crit', {})) for a in batch}
+  crit = {a.aid: dict(a.meta.get('crit', {})) for a in batch}
+  _issuer_oracle(batch, crit)
+  return crit
+
+
+def _issuer_oracle(batch, crit):
+  """A signature's issuer-key verdict equals the verdict of the EC checks on that key: the library's own CheckAllEC on fresh
+  copies of the distinct issuer keys of THIS batch is the oracle for CheckIssuerKey (verdict and severity)."""
+  from paranoid_crypto.lib import paranoid
+  pb = gen.pbmod()
+  keys, idx = [], {}
+  for a in batch:
+    info = a.proto.issuer_key_info
+    k = (info.curve_type, bytes(info.x), bytes(info.y))
+    if k not in idx:
+      idx[k] = len(keys)
+      keys.append(pb.ECKey(ec_info=info))
+  if not keys:
+    return
+  try:
+    paranoid.CheckAllEC(keys)
+  except Exception:  # pylint: disable=broad-except
+    return
+  for a in batch:
+    info = a.proto.issuer_key_info
+    key = keys[idx[(info.curve_type, bytes(info.x), bytes(info.y))]]
+    pos = [int(r.severity) for r in key.test_info.test_results if r.result]
+    crit[a.aid]['CheckIssuerKey'] = 'must' if key.test_info.weak else 'mustnot'
+    a.meta['issuer_sev'] = max(pos) if pos else 0
 
 
 def run_scenario(args):
